@@ -132,6 +132,21 @@ CLAIMS: dict = {
         technique='contract-based deductive verification: symbolic execution of the real functions over uninterpreted graph '
                   'contracts, z3 (reals); bounded stand-in on small digraphs',
         engines=['pyvc', 'bounded']),
+    'C18': dict(
+        category='proof',
+        text='All 18 check functions of wn/validate.py are executed symbolically on an arbitrary lexicon of the loader\'s '
+             'normal form (required keys present, every optional key and list arbitrary): (a) no subscript / attribute '
+             'access can raise; (b) for a generic identifier k: k is reported <=> k satisfies the documented condition '
+             '(sidecar predicate per code; both directions proved in z3; Counter multiplicities as "occurs at two '
+             'positions"); validate() report structure, _select_checks, code table, REVERSE_RELATIONS involution; '
+             'E204/E401 => add() rejects via the row images (NULL look-up into NOT NULL columns, no OR IGNORE) and the '
+             'wn.Error of _insert_sense_relations.',
+        note='W403/W404 (tuple-keyed accumulations whose content depends on set iteration order, see C16) are covered for '
+             'no-raise only. W501 exactness is claimed for unique synset ids. collections.Counter semantics assumed '
+             '(A-PY-COUNTER). Context fields of the items are not compared. Fixed finding F1 (KeyError in W501).',
+        technique='contract-based deductive verification: AST-level symbolic execution of the real checks over records '
+                  'generated from the lmf TypedDicts, z3',
+        engines=['pyvc']),
     'C05': dict(
         category='proof',
         text='Decomposition of the history property into per-operation obligations over the real DDL, SQL and '
